@@ -109,4 +109,18 @@ Definition find_root_h (f : T -> T) (xLeft xRight acc : T) : res (T * how) * lis
 (** the returned number (or Exit) and the evaluation trace *)
 Definition find_root (f : T -> T) (xLeft xRight acc : T) : res T * list T :=
   let '(o, tr) := find_root_h f xLeft xRight acc in (rmap fst o, tr).
+
+(** Several requests served one after the other by one process (case op [seq]).  Find_Root keeps nothing between
+    calls (no statics, no globals: its only locals are those of the listing above), so a history is served by
+    serving each request on its own; std::exit in one call ends the process, and with it the history. *)
+Fixpoint find_root_seq (reqs : list ((T -> T) * T * T * T)) : list (res (T * how) * list T) :=
+  match reqs with
+  | [] => []
+  | (f, a, b, acc) :: rest =>
+      let o := find_root_h f a b acc in
+      match fst o with
+      | Ok _ => o :: find_root_seq rest
+      | _ => [o]
+      end
+  end.
 End Model.
